@@ -483,6 +483,12 @@ func c14CRun(c c14CCase) Outcome {
 				}
 			}
 			if id == 0 {
+				if call.Finished() && call.Err != nil && strings.Contains(call.Err.Error(), "timed out") {
+					// the caller's (real, short) MaxResponseTime ran out while the request was still queued in the
+					// client: a slow machine, not a credit problem (false alarm seen under load, DESIGN section 10)
+					o := Outcome{Inconcl: "request " + tag + " timed out before the client had written it (machine too slow for the timer)"}
+					return &o
+				}
 				if call.Finished() && call.Err != nil {
 					{
 						o := fail("request-failed", "request %s failed before reaching the server: %v (after %d octets downloaded, %d abandoned streams)", tag, call.Err, sentTotal, abandoned)
